@@ -465,6 +465,17 @@ func (h c17DoH) ServeHTTP(w http.ResponseWriter, r *http.Request) {
 	}
 	w.Header().Set("Content-Type", "application/dns-message")
 	w.Write(resp)
+	if h.seen.oneShot && r.ProtoMajor == 3 {
+		// http3.Server has no per-request way to end the connection: drop the whole QUIC connection after the reply has
+		// drained (as c17ServeDoQ does), so that the next exchange has to dial again
+		if hj, ok := w.(http3.Hijacker); ok {
+			if c, ok := hj.StreamCreator().(interface {
+				CloseWithError(quic.ApplicationErrorCode, string) error
+			}); ok {
+				time.AfterFunc(60*time.Millisecond, func() { c.CloseWithError(0, "") })
+			}
+		}
+	}
 }
 
 func c17ServeDoQ(l *quic.Listener, seen *c17Seen) {
